@@ -86,13 +86,21 @@ def traces(ctx, fmt, make_trace, ntraces, module, cfg, attrs_of, label="random r
         out, viol = [], []
         for tid in chunk:
             r = random.Random(ctx.seed * 9176 + tid)
+            import signal
+            old = signal.signal(signal.SIGALRM, diskcheck._on_alarm)
+            signal.alarm(60)
             try:
                 out.append(make_trace(tid, r))
+            except diskcheck.Hang as e:
+                viol.append(({"format": fmt, "fail": "hang"}, {"kind": "trace-gen", "tid": tid, "error": str(e)}))
             except core.MachineryError as e:
                 return {"err": str(e)}
             except Exception as e:  # noqa: BLE001
                 viol.append(({"format": fmt, "fail": "op-raised", "exc": type(e).__name__},
                              {"kind": "trace-gen", "tid": tid, "error": repr(e)[:300], "tb": traceback.format_exc()[-1500:]}))
+            finally:
+                signal.alarm(0)
+                signal.signal(signal.SIGALRM, old)
         return {"traces": out, "viol": viol}
 
     _GEN["fn"] = gen
